@@ -636,6 +636,7 @@ def body(ctx, root):
 
     # ---- the cases
     file_size_limit_probe(ctx, root, printed)
+    invoked_name_probe(ctx, root, printed)
     cases = gen_cases(ctx, printed)
     results = lib.pmap(lambda c: execute(ctx, root, c), cases)
     midx = [i for i, c in enumerate(cases) if c["kind"] != "fault"]
@@ -692,6 +693,33 @@ def body(ctx, root):
     k = next((i for i, c in enumerate(cases) if c["kind"] == "malformed"), 0)
     ctx.sample({"argv": ["imdl"] + results[k]["argv"], "rc": results[k]["rc"], "model": replies[k][:80]})
     return finish(ctx)
+
+
+def invoked_name_probe(ctx, root, printed):
+    """The binary started under another name (a symbolic link `intermodal`, a renamed copy): what `--shell S` prints and what
+    `--dir D` writes under that same invocation are still the same bytes (added after seeded change C19-18: the printed script
+    was generated for argv[0], the written one for the fixed name)."""
+    import subprocess
+    d = tempfile.mkdtemp(dir=root)
+    env = dict(lib.noise_env(), PATH=os.environ.get("PATH", ""), RUST_BACKTRACE="0", **ENV0)
+    for alias in ("intermodal", "imdl-0.1", "i"):
+        link = os.path.join(d, alias)
+        os.symlink(ctx.bins["imdl"], link)
+        for s in SHELLS:
+            out_dir = os.path.join(d, "out-%s-%s" % (alias, s))
+            os.makedirs(out_dir)
+            p1 = subprocess.run([link, "completions", "--shell", s], cwd=d, env=env, stdin=subprocess.DEVNULL, stdout=subprocess.PIPE, stderr=subprocess.PIPE, timeout=60)
+            p2 = subprocess.run([link, "completions", "--shell", s, "--dir", out_dir], cwd=d, env=env, stdin=subprocess.DEVNULL, stdout=subprocess.PIPE, stderr=subprocess.PIPE, timeout=60)
+            ctx.cov["evaluations"] += 1
+            ctx.count("invoked_under_another_name")
+            ctx.distinct(("alias", alias, s))
+            files = {fn: open(os.path.join(out_dir, fn), "rb").read() for fn in os.listdir(out_dir)}
+            if p1.returncode != 0 or p2.returncode != 0 or files != {DOCNAME[s]: p1.stdout} or not p1.stdout.strip():
+                ctx.violation("oracle-failure", "started as `%s`: `completions --shell %s` printed %d bytes (rc %d), `--dir D` wrote %s (rc %d): "
+                              "not the same text under the documented name" % (alias, s, len(p1.stdout), p1.returncode, {k: len(v) for k, v in files.items()}, p2.returncode),
+                              {"alias": alias, "shell": s, "reproduce": "ln -s $(command -v imdl) %s; ./%s completions --shell %s > a; mkdir D; ./%s completions --shell %s --dir D; cmp a D/%s"
+                                                                      % (alias, alias, s, alias, s, DOCNAME[s])})
+    shutil.rmtree(d, ignore_errors=True)
 
 
 def file_size_limit_probe(ctx, root, printed):
